@@ -69,7 +69,7 @@ def features(text: str) -> Set[str]:
             walk(c, bound)
     walk(tree, set())
     # rows per object whose column is itself a sequence
-    top = tree
+    top = tree.body
     if isinstance(top, ast.Call) and isinstance(top.func, ast.Attribute) and top.func.attr == "Select" and top.args and isinstance(top.args[0], ast.Lambda):
         src = top.func.value
         body = top.args[0].body
